@@ -332,13 +332,15 @@ DefPool ==
   /\ last' = "pool"
   /\ UNCHANGED <<stack, scopes, cmds, defaults>>
 
+BuildStmt   == Count({"build"}) < MaxBuilds /\ \E b \in BuildAlpha(Count({"build"}) + 1) : Build(b)
+DefaultStmt == \E p \in AllOuts : Default(p)
 Next ==
   \/ \E i \in FBSel : Bind(FBAlpha[i])
   \/ \E r \in RuleAlpha : DefRule(r)
-  \/ Count({"build"}) < MaxBuilds /\ \E b \in BuildAlpha(Count({"build"}) + 1) : Build(b)
+  \/ BuildStmt
   \/ \E kind \in NestKinds : Enter(kind)
   \/ Exit
-  \/ \E p \in AllOuts : Default(p)
+  \/ DefaultStmt
   \/ DefPool
 Spec == Init /\ [][Next]_vars
 
